@@ -25,7 +25,7 @@ use {
 use crate::kani;
 
 fn bfs_predecessors<const N: usize>() {
-    cx::set_vcap(N + 1);
+    cx::set_vcap(2 * N);
 
     let g = G::<N>::any();
     let src: [bool; N] = nd::bools();
@@ -52,7 +52,7 @@ fn bfs_predecessors<const N: usize>() {
 }
 
 fn bfs_shortest_path<const N: usize>() {
-    cx::set_vcap(N + 1);
+    cx::set_vcap(2 * N);
 
     let g = G::<N>::any();
     let src: [bool; N] = nd::bools();
